@@ -41,9 +41,48 @@ def catalogue(tier: str) -> list[dict]:
         if q and s["scheme"] in ("qam", "pam", "psk") and s.get("order") not in (4, 16, 8):
             continue
         full.append(dict(s, via="registry"))
+    # the same objects in another *form* (dtype-preserving, so every clause applies unchanged): deep copy of a used
+    # object, .double().float() round trip, state re-loaded into a twin through state_dict
+    seen = set()
+    for s in out:
+        key = (s["scheme"], s.get("order"))
+        if key in seen or s["scheme"] == "identity" or (q and s.get("order", 4) > 16):
+            continue
+        seen.add(key)
+        for form in FORMS:
+            full.append(dict(s, via="direct", form=form))
     for i, s in enumerate(full):
         s["id"] = i
     return full
+
+
+FORMS = ("deepcopy", "double_float", "state_dict")
+
+
+def _apply_form(s: dict, mod, dem):
+    import copy
+
+    import torch
+
+    form = s.get("form")
+    if form == "deepcopy":
+        # used once, then copied: lazily built attributes and memory are copied with it
+        b = bits_per_symbol(s)
+        try:
+            dem(mod(torch.zeros(1, 4 * b)))
+        except Exception:  # noqa: BLE001 - warming up must not decide anything
+            pass
+        return copy.deepcopy(mod), copy.deepcopy(dem)
+    if form == "double_float":
+        return mod.double().float(), dem.double().float()
+    if form == "state_dict":
+        plain = dict(s)
+        plain.pop("form")
+        m2, d2 = build(plain, soft=bool(getattr(dem, "soft_output", False)))
+        m2.load_state_dict(copy.deepcopy(mod.state_dict()))
+        d2.load_state_dict(copy.deepcopy(dem.state_dict()))
+        return m2, d2
+    return mod, dem
 
 
 def cfg(s: dict) -> str:
@@ -59,6 +98,8 @@ def cfg(s: dict) -> str:
     if s.get("spelling"):
         parts.append(f"spelled:{s['spelling']}")
     parts.append(s.get("via", "direct"))
+    if s.get("form"):
+        parts.append(f"form:{s['form']}")
     return ",".join(parts)
 
 
@@ -148,6 +189,8 @@ def build(s: dict, soft: bool = False):
             "identity": (M.IdentityModulator, M.IdentityDemodulator),
         }[sc]
         mod, dem = cls[0](**mk), cls[1](**dk)
+    if s.get("form"):
+        mod, dem = _apply_form(s, mod, dem)
     mod.eval()
     dem.eval()
     mod.reset_state()
